@@ -434,3 +434,42 @@ Proof.
   destruct (do_request clean cf c rq script) as [[evs c'] r].
   destruct B as (_ & _ & O). split; intros ->; exact O.
 Qed.
+
+(* ---------- failed sends (transport error / cancelled context) ---------- *)
+Fixpoint stops_after_failure (evs : list event) : Prop :=
+  match evs with
+  | [] => True
+  | (s, a) :: rest => (a = AErr -> rest = []) /\ stops_after_failure rest
+  end.
+
+Ltac fleaf :=
+  simpl; repeat split; auto; try (intros; discriminate);
+  try (intros (s0 & L0 & R0); simpl in L0;
+       first [reflexivity | discriminate L0 | (injection L0 as <-; simpl in R0; discriminate R0)]).
+
+Ltac fcrush :=
+  repeat (match goal with
+  | |- context [match ?s with [] => _ | _ :: _ => _ end] => is_var s; destruct s as [|[| ? | ? | | ] ?]
+  | |- context [if ?b then _ else _] => destruct b eqn:?
+  end; cbn beta iota); fleaf.
+
+(* nothing is sent after a send that got no response, and a token fetch that
+   failed or was cancelled leaves the cache as it was *)
+Lemma do_request_failures clean cf c rq script :
+  let '(evs, c', r) := do_request clean cf c rq script in
+  stops_after_failure evs /\
+  ((exists s, last evs no_event = (s, AErr) /\ is_reg (s, AErr) = false) -> c' = c) /\
+  ((exists s, last evs no_event = (s, AFail) /\ is_reg (s, AFail) = false) -> c' = c).
+Proof.
+  unfold do_request.
+  destruct (match cache_get_scheme (cf_flavour cf) c (rq_host rq) with
+            | Some SchBasic => _ | Some SchBearer => _ | _ => _ end) as [attempted a1].
+  destruct script as [|[| hdr | id | | ] script1]; try (fleaf; fail).
+  destruct (parse_challenge hdr) as [|[| |] ps] eqn:Ech; try (fleaf; fail).
+  - unfold fetch_basic, final_send. fcrush.
+  - set (scopes := if is_empty (get_param s_scope ps) then _ else _).
+    set (key := join [c_space] scopes).
+    cbv zeta. unfold fetch_bearer_plan, final_send.
+    destruct (if str_eqb key attempted then None else cache_get_token _ c _ SchBearer key) as [tok2|];
+      fcrush.
+Qed.
